@@ -35,7 +35,7 @@ static _Bool post_transpose_dense(const crs *A, const crs *T)
 '''
 
 transpose = Unit(
-    name='builtin_transpose', props=['C08', 'C10'],
+    name='builtin_transpose', props=['C08', 'C03', 'C10'],
     functions=['backend::transpose(const crs<V,C,P>&)', 'crs::set_size', 'crs::scan_row_sizes', 'crs::set_nonzeros'],
     desc='T = A^T (adjoint of values), well-formed CRS, rows ascending; any pattern (unsorted, duplicates, empty rows/cols)',
     cuts=dict(crs_member_cuts(), body=Cut(
@@ -112,7 +112,7 @@ static _Bool post_same_pairs(const col_type *c0, const val_type *v0, const col_t
 """
 
 sort_row = Unit(
-    name='sort_row', props=['C08', 'C10'],
+    name='sort_row', props=['C08', 'C03', 'C10'],
     functions=['detail::sort_row(Col*, Val*, int)'],
     desc='after the call col[0..n) is ascending and the multiset of (col,val) pairs is unchanged; cells >= n untouched',
     cuts=dict(body=Cut(SORT_ROW_SRC, SORT_ROW_ANCHOR,
@@ -245,7 +245,7 @@ static _Bool post_pointwise_values(const crs *A, size_t bs, const crs *P)
 """
 
 pointwise = Unit(
-    name='builtin_pointwise_matrix', props=['C08', 'C10'],
+    name='builtin_pointwise_matrix', props=['C08', 'C04', 'C10'],
     functions=['backend::pointwise_matrix(const crs<V,C,P>&, unsigned)', 'crs::set_size', 'crs::scan_row_sizes', 'crs::set_nonzeros'],
     desc='block-to-pointwise reduction: result is (n/bs)x(m/bs), well formed, rows strictly ascending, block (ip,jp) stored iff A has an entry in it, value = largest norm in the block',
     cuts=dict(crs_member_cuts(), body=Cut(
@@ -525,7 +525,7 @@ static _Bool post_product(const crs *A, const crs *B, const crs *C, _Bool patter
 """
 
 spgemm_saad = Unit(
-    name='spgemm_saad', props=['C08', 'C10'],
+    name='spgemm_saad', props=['C08', 'C03', 'C10'],
     functions=['backend::spgemm_saad(const A&, const B&, C&, bool)', 'detail::sort_row', 'crs::set_size', 'crs::scan_row_sizes', 'crs::set_nonzeros'],
     desc='marker-based SpGEMM: dense(C) == dense(A)*dense(B), structural product pattern, well formed, no duplicate column per row, rows ascending when sort=true; any input pattern',
     cuts=dict(crs_member_cuts(), sort_row=SORT_ROW_CALLEE, body=Cut(
@@ -607,7 +607,7 @@ spgemm_saad.cover_exempt = r'set_size\.1$'   # set_size(n, m) with default clean
 
 # =========================================================================== scale
 scale_u = Unit(
-    name='builtin_scale', props=['C08', 'C10'],
+    name='builtin_scale', props=['C08', 'C03', 'C10'],
     functions=['backend::scale(crs&, T)'],
     desc='A := s*A: every stored value is multiplied by s exactly once; structure (sizes, ptr, col) unchanged',
     cuts=dict(body=Cut(
@@ -674,7 +674,7 @@ static _Bool post_rows_same_pairs(const crs_snap *o, const crs *A)
 }
 """
 sort_rows_u = Unit(
-    name='builtin_sort_rows', props=['C08', 'C10'],
+    name='builtin_sort_rows', props=['C08', 'C03', 'C10'],
     functions=['backend::sort_rows(crs&)', 'detail::sort_row'],
     desc='every row ascending afterwards; each row keeps its multiset of (col,val) pairs; sizes and row pointers unchanged',
     cuts=dict(sort_row=SORT_ROW_CALLEE, body=Cut(
